@@ -306,6 +306,12 @@ func wireMatch(w *World, wc *wireCtx, r *Report) {
 	{
 		seen := map[*ssa.Function]bool{vmp: true}
 		for i := 0; i < len(pairFns); i++ {
+			for _, a := range pairFns[i].AnonFuncs {
+				if !seen[a] {
+					seen[a] = true
+					pairFns = append(pairFns, a)
+				}
+			}
 			forEachInstr(pairFns[i], func(_ *ssa.BasicBlock, ins ssa.Instruction) {
 				if c, ok := ins.(ssa.CallInstruction); ok {
 					if g := c.Common().StaticCallee(); g != nil && g.Pkg == w.Parser && !seen[g] && !strings.HasPrefix(g.Name(), "Visit") && g.Blocks != nil {
@@ -688,6 +694,49 @@ func textOfAccessor(w *World, v ssa.Value, ctxs map[string]*CtxInfo, allowed map
 			}
 		}
 		return real > 0
+	case *ssa.FreeVar:
+		// captured by a closure: what the enclosing function bound
+		g := x.Parent()
+		if g == nil || g.Parent() == nil {
+			return false
+		}
+		idx := -1
+		for j, fv := range g.FreeVars {
+			if fv == x {
+				idx = j
+			}
+		}
+		n, good := 0, true
+		forEachInstr(g.Parent(), func(_ *ssa.BasicBlock, ins ssa.Instruction) {
+			mc, ok := ins.(*ssa.MakeClosure)
+			if !ok || mc.Fn != ssa.Value(g) || idx < 0 || idx >= len(mc.Bindings) {
+				return
+			}
+			b := mc.Bindings[idx]
+			if al, ok := b.(*ssa.Alloc); ok && al.Referrers() != nil {
+				for _, ref := range *al.Referrers() {
+					if st, ok := ref.(*ssa.Store); ok && st.Addr == ssa.Value(al) {
+						n++
+						if !textOfAccessor(w, st.Val, ctxs, allowed, depth+1) {
+							good = false
+						}
+					}
+				}
+				return
+			}
+			n++
+			if !textOfAccessor(w, b, ctxs, allowed, depth+1) {
+				good = false
+			}
+		})
+		return n > 0 && good
+	case *ssa.UnOp:
+		if x.Op == token.MUL {
+			if fv, ok := x.X.(*ssa.FreeVar); ok {
+				return textOfAccessor(w, fv, ctxs, allowed, depth+1)
+			}
+		}
+		return false
 	case *ssa.Phi:
 		for _, e := range x.Edges {
 			if s, isConst := constString(e); isConst && s == "" {
